@@ -1,52 +1,275 @@
-import MqttVerif.Conn.Lemmas.Basic
-import MqttVerif.Props.C09
+import MqttVerif.Conn.Lemmas.Reconnect
 /-!
-# C05 — no peer-controlled input can panic or wedge a connection (first instalment)
+# C05 — no peer-controlled input can panic or wedge a connection
+
+Model: `Conn.step` (L2, `Conn/Model.lean`, `Conn/Step.lean`).  A Rust panic is the sticky field
+`St.panic`, set only by `C.setPanic`.
+
+## Inventory of the `setPanic` sites of `Conn/Model.lean` and why each is unreachable
+
+| site (model function) | Rust site | unreachable because | lemma |
+|---|---|---|---|
+| `releaseId` | `value_allocator.rs` range assertion / `value+1` overflow | always called after `is_used_id` (`releaseIfUsed`, `pubRefuseCleanup`), allocator refines a set (`PidWf`, C20) | `PidWf.dealloc_none`, `releaseId_s`, `releaseIfUsed_s` |
+| `sendStoredLoop` | `publish_send_count += 1` in `send_stored` | counter is reset on entry, ≤ 65535 stored entries (`Headroom`) | `sendStoredLoop_s`, `sendStored_s` |
+| `storeAdd` | `store.add().unwrap()` (v3/v5 PUBLISH, PUBREL) | ownership: stored ids ⊆ wait sets (`StoreInv`), a legal send uses an id in no wait set (`IdFresh`); the automatic PUBREL follows the removal of the id from `pubrec` and of its stored PUBLISH | `StoreInv.fresh_not_stored`, `storeAdd_s`, `psV3Publish_goodV`, `psV5Publish_goodV`, `psPubrel_goodV`, `prPubrec_goodV` |
+| `psV3Publish`, `psV5Publish` | `packet_id().unwrap()` | local contract `PubIdOk` | `psV3Publish_goodV`, `psV5Publish_goodV` |
+| `tasInsert` | `TopicAliasSend::insert_or_update` assert | topic non-empty, alias validated / chosen by `get_lru_alias` inside `[1, max]` (`TasInv`) | `tasInsert_s`, `TasInv.lruAlias`, `autoAlias_s` |
+| `psV5PublishTail` | `publish_send_count += 1` | gate `count < Receive Maximum ≤ 65535` (`Credit`) | `psV5PublishTail_goodV`, `rmBlocked_false` |
+| `psV5Publish` | `remove_topic_alias_add_topic().unwrap()` | send alias table holds wildcard-free topics (`TasInv`; topics enter only from `send`, `WfSent`) | `validateTopicAlias_s`, `TasInv.get` |
+| `connackRecvProp` ×2 | `assert!(val != 0)` | parser-validated (`WfParsedT`) | `connackRecvProp_goodV` |
+| `prV3Publish`, `prV5Publish` ×3 each | `packet_id().unwrap()`, PUBACK/PUBREC `build().unwrap()` | parser rejects QoS>0 without / with zero id (`WfParsedT`) | `prV3Publish_goodV`, `prV5Publish_goodV` |
+| `notifyTimerFired` ×2 | `unreachable!()` | timers armed only once the version is determined (`VerTimer`) | `Good.ver_of_flag`, `notifyTimerFired_good` |
+
+All statements quantify over every configuration, every state satisfying the invariant, every
+peer input (`recv inp parse` for every `inp` and every parser satisfying `ParserOk`) and every
+sequence of calls; nothing is bounded.
 -/
 set_option linter.unusedSimpArgs false
 set_option linter.unusedVariables false
 namespace MqttVerif.Conn
 open MqttVerif
 
-/-- a framing error is reported: timers cancelled, close requested, error notified -/
-theorem C05_frame_error_reported (c : C) (inp : List Nat) (parse : Nat → Nat → List Nat → Except Nat Pkt)
-    (h : (Framing.feed c.s.pb inp).2.1 = some .error) :
-    .error eMalformed ∈ (recv c inp parse).1.ev ∧ .close ∈ (recv c inp parse).1.ev := by
-  unfold recv
-  cases hf : Framing.feed c.s.pb inp with
-  | mk pb r =>
-    obtain ⟨out, rest⟩ := r
-    rw [hf] at h
-    simp only at h
-    subst h
-    simp
+/-- **the global invariant** (`Good` = `Inv` + "no panic so far") -/
+def Inv (s : St) : Prop :=
+  PidWf s.pidMan ∧ StoreInv s.ver s.store s.puback s.pubrec s.pubcomp ∧ TasOptInv s.tas ∧
+  Credit s.sendMax ∧ Framing.Inv s.pb ∧ VerTimer s.ver s.status s.sendSet s.recvSet s.respSet
 
-/-- the unread rest returned by `recv` is a suffix of the buffer, and at most one frame is
-    taken per call (whatever the peer sent): from the framing theorem of C09 -/
-theorem C05_recv_consumes_prefix (c : C) (inp : List Nat) (parse : Nat → Nat → List Nat → Except Nat Pkt)
-    (hi : Framing.Inv c.s.pb) : ∃ consumed, inp = consumed ++ (recv c inp parse).2 := by
-  have := (Framing.C09_feed_is_bytewise c.s.pb inp hi).2
-  unfold recv
-  cases hf : Framing.feed c.s.pb inp with
-  | mk pb r =>
-    obtain ⟨out, rest⟩ := r
-    rw [hf] at this
-    cases out with
-    | none => simpa using this
-    | some o => cases o <;> simpa using this
+theorem good_iff (s : St) : Good s ↔ Inv s ∧ s.panic = none := by
+  unfold Good Base Inv
+  constructor
+  · rintro ⟨⟨a, b, c, d, e, f⟩, g⟩; exact ⟨⟨a, b, c, d, e, g⟩, f⟩
+  · rintro ⟨⟨a, b, c, d, e, g⟩, f⟩; exact ⟨⟨a, b, c, d, e, f⟩, g⟩
 
-/-- fix (finding #7): a received CONNECT announcing Topic Alias Maximum 0 creates no alias
-    table (the allocator constructor would assert `1 <= 0`) -/
-theorem C05_tam_zero_no_table (c : C) : connectRecvProp c pTAM 0 = c := by
-  simp [connectRecvProp]
+/-- the invariant holds for a freshly constructed object -/
+theorem C05_inv_init (cfg : Cfg) (ver : Nat) (hpw : 1 ≤ cfg.pw) (hv : ver = 0 ∨ ver = 4 ∨ ver = 5) :
+    Inv (St.init cfg ver) ∧ (St.init cfg ver).panic = none :=
+  (good_iff _).1 (init_good hpw hv)
 
-/-- a frame whose type the role may not receive is reported as a protocol error, state unchanged,
-    without ever being parsed -/
-theorem C05_role_gate_reports (c : C) (fh : Nat) (data : List Nat) (parse : Nat → Except Nat Pkt)
-    (hs : ¬ totalSize data.length > c.s.mpsRecv) (hg : canReceive c.cfg c.s (fh / 16) = false) :
-    processRecvPacket c fh data parse = c.err eProtocol := by
-  simp [processRecvPacket, hs, hg]
+/-- **C05, no panic (one call).**  In every state of the invariant class that has not panicked,
+    every contract-respecting local call and every `recv` of ARBITRARY bytes with an arbitrary
+    parser whose successful results are well formed returns without panic, and the state
+    stays in the class. -/
+theorem C05_no_panic (cfg : Cfg) (s : St) (op : Op) (hi : Inv s) (hn : s.panic = none)
+    (hl : Legal cfg s op) :
+    (step cfg s op).s.panic = none ∧ Inv (step cfg s op).s := by
+  have := (good_iff _).1 (step_good (cfg := cfg) ((good_iff s).2 ⟨hi, hn⟩) hl)
+  exact ⟨this.2, this.1⟩
 
-example : Framing.Inv (St.init ⟨.server, 2⟩ 0).pb := by intro h; simp [St.init] at h
+/-- **C05, no panic (all call sequences from a fresh object).** -/
+theorem C05_no_panic_run (cfg : Cfg) (ver : Nat) (hpw : 1 ≤ cfg.pw) (hv : ver = 0 ∨ ver = 4 ∨ ver = 5)
+    (ops : List Op) (hl : LegalSeq cfg (St.init cfg ver) ops) :
+    (run cfg (St.init cfg ver) ops).panic = none ∧ Inv (run cfg (St.init cfg ver) ops) := by
+  have := (good_iff _).1 (run_good (init_good hpw hv) ops hl)
+  exact ⟨this.2, this.1⟩
+
+/-- the same contract without the side condition `Headroom` (at most 65535 stored packets) -/
+def LegalNoHeadroom (cfg : Cfg) (s : St) : Op → Prop
+  | .send p => WfSent p ∧ (p.kind = .publish → PubIdOk s p) ∧ (p.kind = .pubrel → IdFresh s (p.pid.getD 0))
+  | .recv _ parse => ParserOk parse
+  | .timer k => timerFlag s k = true
+  | .restorePackets ps => RestoreOk { cfg := cfg, s := s } ps
+  | _ => True
+
+def LegalSeqNoHeadroom (cfg : Cfg) : St → List Op → Prop
+  | _, [] => True
+  | s, op :: ops => LegalNoHeadroom cfg s op ∧ LegalSeqNoHeadroom cfg (step cfg s op).s ops
+
+/-- the unconditional statement.  NOT proved: with 4-byte identifiers the store can hold more
+    than 65535 packets and `send_stored` then overflows the `u16` `publish_send_count`
+    (site `sendStoredLoop`); with 2-byte identifiers it needs the additional invariant
+    "store identifiers are distinct and in `[1, 65535]`" (see `notes/P8-report.md`). -/
+def C05_no_panic_full : Prop :=
+  ∀ (cfg : Cfg) (ver : Nat), 1 ≤ cfg.pw → (ver = 0 ∨ ver = 4 ∨ ver = 5) →
+    ∀ ops, LegalSeqNoHeadroom cfg (St.init cfg ver) ops → (run cfg (St.init cfg ver) ops).panic = none
+
+/-- **C05, the identifier calls are total**: `acquire`, `register id`, `release id`, `erase id`
+    for EVERY `id` (0, out of range, free, in flight) never panic — only the allocator's
+    representation invariant is needed. -/
+theorem C05_idcalls_total (cfg : Cfg) (s : St) (hp : PidWf s.pidMan) (hn : s.panic = none) (id : Nat) :
+    (step cfg s .acquire).s.panic = none ∧ (step cfg s (.register id)).s.panic = none ∧
+    (step cfg s (.release id)).s.panic = none ∧ (step cfg s (.erase id)).s.panic = none := by
+  refine ⟨hn, hn, ?_, ?_⟩
+  · obtain ⟨a, _, e⟩ := releaseIfUsed_s (c := { cfg := cfg, s := s }) hp id
+    show (releaseIfUsed _ id).s.panic = none
+    rw [e]; exact hn
+  · show (eraseStoredPublish { cfg := cfg, s := s } id).s.panic = none
+    unfold eraseStoredPublish
+    dsimp only
+    split
+    · have hd : ∀ c : C, (decSendCount c).s.pidMan = c.s.pidMan ∧ (decSendCount c).s.panic = c.s.panic := by
+        intro c; unfold decSendCount; split <;> exact ⟨rfl, rfl⟩
+      obtain ⟨a, _, e⟩ := releaseIfUsed_s (c := decSendCount { cfg := cfg, s := { s with
+          store := (storeErasePublish id s.store).2, puback := del id s.puback, pubrec := del id s.pubrec } })
+          (by rw [(hd _).1]; exact hp) id
+      rw [e]
+      show (decSendCount _).s.panic = none
+      rw [(hd _).2]; exact hn
+    · exact hn
+
+/-- **C05, no wedge.**  Every complete frame handed to `process_recv_packet` yields a
+    delivery, an error event or a PUBREC (`Mon.frameAccounted`), in EVERY state and for every
+    parser result (`hp`: a parsed PUBLISH has QoS ≤ 2 and, for QoS>0, a non-zero identifier) —
+    except in the situation of known finding #27: a QoS 2 PUBLISH whose identifier is already
+    handled arriving while the connection is not established. -/
+theorem C05_no_wedge (c : C) (fh : Nat) (data : List Nat) (parse : Nat → Except Nat Pkt)
+    (hp : fh / 16 = 3 → ∀ p, parse c.s.ver = .ok p → PubParsedOk p ∧ p.qos ≤ 2)
+    (hx : ¬ dupNotConnected c.s fh (parse c.s.ver)) :
+    Mon.frameAccounted (processRecvPacket c fh data parse).ev = true :=
+  acc_processRecvPacket hp hx
+
+/-- **C05, `recv` consumes input**: the unread rest is a suffix of the input and strictly
+    shorter when the input is non-empty, so the application's receive loop terminates. -/
+theorem C05_recv_consumes (c : C) (inp : List Nat) (parse : Nat → Nat → List Nat → Except Nat Pkt)
+    (hinv : Framing.Inv c.s.pb) :
+    (∃ pre, inp = pre ++ (recv c inp parse).2) ∧
+    (inp ≠ [] → (recv c inp parse).2.length < inp.length) := by
+  rw [recv_rest, Framing.feed_eq_spec _ _ hinv]
+  have := Framing.feedSpec_props c.s.pb inp hinv
+  exact ⟨this.2.1, this.2.2.1⟩
+
+/-- **C05, after `notify_closed` the object accepts a new connection (client side).**  From ANY
+    state (no invariant needed), after `closed` a CONNECT of the connection's version whose
+    size is within the protocol limit is accepted by `send`: the events contain the request to
+    send it. -/
+theorem C05_closed_then_connectable_send (cfg : Cfg) (s : St) (p : Pkt)
+    (hr : cfg.role = .client ∨ cfg.role = .any) (hk : p.kind = .connect) (hv : s.ver = p.ver)
+    (hsz : p.sz cfg.pw ≤ noLimit) :
+    Ev.send p none ∈ (step cfg (step cfg s .closed).s (.send p)).ev := by
+  have h := notifyClosed_cv { cfg := cfg, s := s }
+  simp only [cv, Prod.mk.injEq] at h
+  exact send_connect_accepted (c := { cfg := cfg, s := (step cfg s .closed).s }) hk
+    (by show (notifyClosed _).s.ver = _; rw [h.2.2.2.2]; exact hv) hr h.1 h.2.1 hsz
+
+/-- **C05, after `notify_closed` the object accepts a new connection (server side)**, including
+    after a transport loss in the middle of a frame: whatever the packet builder held before
+    `closed`, a complete CONNECT frame received afterwards (`hf`: it is framed from the *reset*
+    builder) that parses is delivered. -/
+theorem C05_closed_then_connectable_recv (cfg : Cfg) (s : St) (inp : List Nat)
+    (parse : Nat → Nat → List Nat → Except Nat Pkt)
+    (pb' : Framing.PB) (fh : Nat) (data rest : List Nat) (p : Pkt)
+    (hr : cfg.role = .server ∨ cfg.role = .any) (hv : s.ver = 4 ∨ s.ver = 5)
+    (hf : Framing.feed Framing.PB.reset inp = (pb', some (.complete fh data), rest))
+    (ht : fh / 16 = 1) (hsz : totalSize data.length ≤ noLimit)
+    (hp : parse s.ver fh data = .ok p) :
+    Ev.recv p ∈ (step cfg (step cfg s .closed).s (.recv inp parse)).ev := by
+  have h := notifyClosed_cv { cfg := cfg, s := s }
+  simp only [cv, Prod.mk.injEq] at h
+  have hver : (step cfg s .closed).s.ver = s.ver := h.2.2.2.2
+  exact recv_connect_delivered (c := { cfg := cfg, s := (step cfg s .closed).s })
+    (by show Framing.feed (notifyClosed _).s.pb inp = _; rw [h.2.2.2.1]; exact hf) ht hsz
+    (by rw [hver]; exact hv) hr h.1 h.2.2.1 (by rw [hver]; exact hp)
+
+/-! ## the exception of `C05_no_wedge` is real (known finding #27), machine-checked -/
+
+def wedgeCfg : Cfg := { role := .server, pw := 2 }
+def wedgeS : St := { St.init wedgeCfg 4 with handled := [1] }
+def wedgeP : Pkt := { ver := 4, kind := .publish, qos := 2, pid := some 1, topic := [97] }
+
+/-- a QoS 2 duplicate on a connection that is not established: NO event at all -/
+example : (processRecvPacket { cfg := wedgeCfg, s := wedgeS } 0x34 [0, 1, 97, 0, 1] (fun _ => .ok wedgeP)).ev = [] := by
+  decide
+example : Mon.frameAccounted
+    (processRecvPacket { cfg := wedgeCfg, s := wedgeS } 0x34 [0, 1, 97, 0, 1] (fun _ => .ok wedgeP)).ev = false := by
+  decide
+example : dupNotConnected wedgeS 0x34 (.ok wedgeP) :=
+  ⟨by decide, by decide, wedgeP, rfl, rfl, by decide⟩
+
+/-! ## non-vacuity -/
+
+def nvCfg : Cfg := { role := .client, pw := 2 }
+def nvConnect : Pkt := { ver := 5, kind := .connect, size := 20, keepAlive := 10, props := [(17, 100)] }
+def nvConnack : Pkt := { ver := 5, kind := .connack, size := 8, rc := some 0, props := [(33, 10), (34, 5)] }
+def nvPub : Pkt := { ver := 5, kind := .publish, pid := some 1, qos := 2, topic := [97] }
+/-- a parser that answers CONNACK for nibble 2 and a QoS 1 PUBLISH with id 7 otherwise -/
+def nvParse : Nat → Nat → List Nat → Except Nat Pkt := fun v fh _ =>
+  if fh / 16 = 2 then .ok { nvConnack with ver := v }
+  else .ok { ver := v, kind := .publish, qos := 1, pid := some 7, topic := [98] }
+
+theorem nvParse_ok : ParserOk nvParse := by
+  intro v fh data p h
+  unfold nvParse at h
+  split at h
+  · rename_i ht
+    cases h
+    refine ⟨rfl, ?_, ?_, ?_⟩
+    · intro h3; omega
+    · intro _ k x hm hk
+      simp [nvConnack] at hm
+      rcases hm with ⟨rfl, rfl⟩ | ⟨rfl, rfl⟩ <;> simp
+    · intro k x hm hk
+      simp [nvConnack] at hm
+      rcases hm with ⟨rfl, rfl⟩ | ⟨rfl, rfl⟩ <;> simp_all [pRM]
+  · cases h
+    exact ⟨rfl, fun _ _ => ⟨7, rfl, by decide⟩, fun _ k x hm => by simp at hm, fun k x hm => by simp at hm⟩
+
+def nvOps : List Op :=
+  [.send nvConnect, .recv [0x20, 2, 0, 0] nvParse, .acquire, .send nvPub, .recv [0x30, 3, 0, 1, 98] nvParse,
+   .timer .pingreqSend, .recv [0xFF, 0xFF, 0xFF, 0xFF, 0xFF] nvParse, .closed]
+
+example : (run nvCfg (St.init nvCfg 5) (nvOps.take 4)).store.length = 1 := by decide
+example : (run nvCfg (St.init nvCfg 5) (nvOps.take 4)).pubrec = [1] := by decide
+
+theorem nvOps_legal : LegalSeq nvCfg (St.init nvCfg 5) nvOps := by
+  have nk : ∀ {k : Kind} {P : Prop}, Kind.connect ≠ k → (nvConnect.kind = k → P) :=
+    fun hne h => absurd h hne
+  have nk' : ∀ {k : Kind} {P : Prop}, Kind.publish ≠ k → (nvPub.kind = k → P) :=
+    fun hne h => absurd h hne
+  refine ⟨?_, ?_, trivial, ?_, ?_, ?_, ?_, trivial, trivial⟩
+  · exact ⟨⟨Or.inr rfl, nk (by decide)⟩, nk (by decide), nk (by decide), nk (by decide)⟩
+  · exact ⟨nvParse_ok, by unfold Headroom; decide⟩
+  · refine ⟨⟨Or.inr rfl, fun _ => by decide⟩, fun _ _ => ⟨1, rfl, ?_⟩, nk' (by decide), nk' (by decide)⟩
+    unfold IdFresh; decide
+  · exact ⟨nvParse_ok, by unfold Headroom; decide⟩
+  · show timerFlag _ _ = true; decide
+  · exact ⟨nvParse_ok, by unfold Headroom; decide⟩
+
+/-- `C05_no_panic_run` applies to a sequence with a CONNECT, a CONNACK carrying Receive
+    Maximum and Topic Alias Maximum, a stored QoS 2 PUBLISH, a received PUBLISH, raw garbage,
+    a timer expiry and a close -/
+example : (run nvCfg (St.init nvCfg 5) nvOps).panic = none :=
+  (C05_no_panic_run nvCfg 5 (by decide) (by decide) _ nvOps_legal).1
+
+/-- a non-trivial state in the invariant class: connected, Receive Maximum 10, alias table of
+    size 5, one stored QoS 2 exchange -/
+def nvS : St := run nvCfg (St.init nvCfg 5) (nvOps.take 5)
+
+theorem nvS_good : Good nvS :=
+  run_good (init_good (by decide) (by decide)) _
+    ⟨nvOps_legal.1, nvOps_legal.2.1, trivial, nvOps_legal.2.2.2.1, nvOps_legal.2.2.2.2.1, trivial⟩
+
+example : nvS.status = .connected ∧ nvS.sendMax = some 10 ∧ nvS.pubrec = [1] ∧ nvS.store.length = 1 := by
+  decide
+
+/-- hypotheses of `C05_no_panic` hold for `nvS` and a `recv` of garbage -/
+example : Inv nvS ∧ nvS.panic = none ∧ Legal nvCfg nvS (.recv [0xFF, 0xFF, 0xFF, 0xFF, 0xFF] nvParse) :=
+  ⟨((good_iff _).1 nvS_good).1, ((good_iff _).1 nvS_good).2, nvParse_ok, by unfold Headroom; decide⟩
+
+/-- hypotheses of `C05_idcalls_total` -/
+example : PidWf nvS.pidMan ∧ nvS.panic = none := ⟨nvS_good.pid, nvS_good.np⟩
+
+/-- hypotheses of `C05_no_wedge`: a QoS 2 duplicate on the established connection `nvS'` -/
+example : (3 * 16 + 4) / 16 = 3 ∧
+    (∀ p, (fun _ : Nat => Except.ok (ε := Nat) wedgeP) nvS.ver = .ok p → PubParsedOk p ∧ p.qos ≤ 2) ∧
+    ¬ dupNotConnected nvS 0x34 (.ok wedgeP) := by
+  refine ⟨by decide, ?_, ?_⟩
+  · intro p h; cases h; exact ⟨fun _ => ⟨1, rfl, by decide⟩, by decide⟩
+  · rintro ⟨_, h, _⟩; exact h (by decide)
+
+/-- hypothesis of `C05_recv_consumes` in a state holding half a frame -/
+example : Framing.Inv (step nvCfg nvS (.recv [0x30, 9, 0] nvParse)).s.pb ∧
+    (step nvCfg nvS (.recv [0x30, 9, 0] nvParse)).s.pb.buf = [0] :=
+  ⟨(step_good (cfg := nvCfg) (op := .recv [0x30, 9, 0] nvParse) nvS_good
+      ⟨nvParse_ok, by unfold Headroom; decide⟩).1.2.2.2.2.1, by decide⟩
+
+/-- hypotheses of `C05_closed_then_connectable_send` (the state holds half a frame) -/
+example : (nvCfg.role = .client ∨ nvCfg.role = .any) ∧ nvConnect.kind = .connect ∧
+    (step nvCfg nvS (.recv [0x30, 9, 0] nvParse)).s.ver = nvConnect.ver ∧ nvConnect.sz nvCfg.pw ≤ noLimit := by
+  decide
+
+/-- hypotheses of `C05_closed_then_connectable_recv`: a 12-byte CONNECT frame -/
+example : Framing.feed Framing.PB.reset [0x10, 10, 0, 4, 77, 81, 84, 84, 4, 2, 0, 0] =
+    ({}, some (.complete 0x10 [0, 4, 77, 81, 84, 84, 4, 2, 0, 0]), []) ∧ 0x10 / 16 = 1 ∧
+    totalSize [0, 4, 77, 81, 84, 84, 4, 2, 0, 0].length ≤ noLimit := by
+  decide
 
 end MqttVerif.Conn
